@@ -342,7 +342,13 @@ static void gc_mark(GCHeader* header) {
             /* Note: Arrays of GC objects store pointers to those objects */
             if (elem_type == ELEM_ARRAY || elem_type == ELEM_STRUCT) {
                 int64_t len = dyn_array_length(arr);
-                /* For object arrays, data is an array of pointers */
+                /* ELEM_ARRAY stores one pointer per element. ELEM_STRUCT stores the
+                 * structs inline (elem_size bytes each, see dyn_array_push_struct):
+                 * scan the pointer-sized words that lie inside the payload, not
+                 * 'len' pointers (that reads past the block when elem_size < 8). */
+                if (elem_type == ELEM_STRUCT) {
+                    len = (len * (int64_t)arr->elem_size) / (int64_t)sizeof(void*);
+                }
                 void** ptr_data = (void**)arr->data;
                 for (int64_t i = 0; i < len; i++) {
                     void* elem = ptr_data[i];
